@@ -106,6 +106,7 @@ def check(run):
     cases, expect = [], []
     weak = 0
     unmatched = []
+    sized = {}
     for name, sp in SP.items():
         gen = G.get(name)
         if gen is None:
@@ -129,6 +130,23 @@ def check(run):
                 break
             cases.append("dec\t%s\t%s" % (name, layouts.hexs(b)))
             expect.append("Ok %s rem=- re=%s" % (layouts.show(want_v), layouts.hexs(b)))
+        # bodies of exactly the sizes at which the APDU length changes its form (254 | 255 | 256) and containers at the
+        # BER-TLV switches: one free text / byte payload of the value is resized until the body has that size
+        if sp["control"] is not None:
+            for target in (126, 127, 128, 129, 253, 254, 255, 256, 257, 258) + ((510, 511, 512, 999, 1000, 1001) if th else ()):
+                for _try in range(3):
+                    v, _ = layouts.gen_struct_value(rng, sp, big=False, absent_pos=False)
+                    if not layouts.resize_to(rng, sp["fields"], v, lambda x: len(spec_bytes(sp, gen, x)), target):
+                        continue
+                    body = spec_bytes(sp, gen, v)
+                    b = bytes(sp["control"]) + layouts.len_prefix("LAdpu", len(body)) + body
+                    want_v = reorder(sp["fields"], gen["fields"], v)
+                    if want_v is None:
+                        break
+                    cases.append("dec\t%s\t%s" % (name, layouts.hexs(b)))
+                    expect.append("Ok %s rem=- re=%s" % (layouts.show(want_v), layouts.hexs(b)))
+                    sized[target] = sized.get(target, 0) + 1
+                    break
     mo = vlib.run_sharded(drv, cases, run.workdir, "c03_model")
     io = vlib.run_sharded(codec, cases, run.workdir, "c03_impl")
     diffs = []
@@ -146,6 +164,7 @@ def check(run):
             run.nontrivial.add(hash(c))
     run.evaluations += len(cases)
     run.coverage["spec_packets"] = len(SP)
+    run.coverage["bodies_of_exact_size"] = {str(k): n for k, n in sorted(sized.items())}
     run.coverage["spec_entries_without_generated_struct"] = unmatched
     run.nontrivial = {str(x) for x in run.nontrivial}
     for k in (0, len(cases) // 2, len(cases) - 1):
